@@ -132,6 +132,8 @@ def run(project, chk):
                         "symmetry and non-negativity under float rounding; 'never raises' (sign of the radicand is numeric)"]
     chk.assumptions += ["kL = kC = kH = 1 (graphic-arts weighting is not used)"]
     V = "cm_colors.core.conversions"
+    from checks._fs_common import closed_form
+    closed_form(project, chk, "L1", [f"{V}.rgb_to_xyz", f"{V}.xyz_to_lab", f"{V}.rgb_to_lab", f"{V}.calculate_hue_angle", "cm_colors.core.color_metrics.calculate_delta_e_2000"], "Lab / CIEDE2000")
     audit(project, chk, "L1", f"{V}.rgb_to_xyz", REF, "xyz", lab_policy(), "sRGB -> CIE XYZ (D65)")
     audit(project, chk, "L2", f"{V}.xyz_to_lab", REF, "lab_of_xyz", lab_policy(var_map={"v": "xyz"}), "CIE XYZ -> L*a*b*", alternatives=["lab_of_xyz_unclamped"])
     audit(project, chk, "L2", f"{V}.rgb_to_lab", REF, "lab", lab_policy(), "sRGB -> L*a*b*", alternatives=["lab_unclamped"])
